@@ -83,7 +83,7 @@ def configs(tier):
         for kind in ('rho', 'Sk0'):
             out.append(dict(family='final-cts', entry='Attack_rate_cts_time', K=K, kind=kind, its=2 if tier == 'quick' else 3, tags=['final', 'cts', kind]))
             out.append(dict(family='final-discrete', entry='Attack_rate_discrete', K=K, kind=kind, its=2 if tier == 'quick' else 3, tags=['final', 'discrete', kind]))
-    for g in ['paw', 'irr5']:
+    for g in ['paw', 'irr5', 'S3']:      # S3 with its centre infected: no susceptible-susceptible edge at all (phiS0 = 0)
         for ic in ('rho', 'sets'):
             out.append(dict(family='final-graph', entry='Attack_rate_*_from_graph', graph=g, ic=ic, tags=['final', 'from_graph', g, ic]))
     return out
